@@ -51,9 +51,6 @@ MUTANTS = [
     {"id": "C12-add-watch-without-lock", "prop": "C12", "edits": [
         R(REF, "        with self._lock:\n            self._watches = self._watches.assoc(k, wf)\n            return self",
           "        if True:\n            self._watches = self._watches.assoc(k, wf)\n            return self")]},
-    {"id": "C12-notify-uses-watches-read-before-cas", "prop": "C12", "edits": [
-        R(ATOM, "            oldval = self._state\n            newval = f(oldval, *args, **kwargs)\n            self._validate(newval)\n            if self._compare_and_set(oldval, newval):\n                self._notify_watches(oldval, newval)",
-          "            oldval = self._state\n            watches = self._watches\n            newval = f(oldval, *args, **kwargs)\n            self._validate(newval)\n            if self._compare_and_set(oldval, newval):\n                for wk, wf in watches.items():\n                    wf(wk, self, oldval, newval)")]},
     # ---- C13
     {"id": "C13-revert-F5-delay-lock", "prop": "C13", "revert": "2b432f4"},
     {"id": "C13-revert-F9-future-timeout", "prop": "C13", "revert": "528fb13"},
@@ -89,12 +86,6 @@ MUTANTS = [
     {"id": "C06-filter-realizes-one-ahead", "prop": "C06", "edits": [
         R(CORE, "    (when-let [coll (seq coll)]\n      (if (pred (first coll))\n        (cons (first coll) (filter pred (rest coll)))",
           "    (when-let [coll (seq coll)]\n      (seq (rest coll))\n      (if (pred (first coll))\n        (cons (first coll) (filter pred (rest coll)))")]},
-    {"id": "C06-computed-state-not-cached", "prop": "C06", "edits": [
-        R(SEQRS, "                    *state = LazySeqState::Computed(obj.clone_ref(py));\n                    Ok(obj.clone_ref(py))",
-          "                    *state = LazySeqState::Initialized(gen);\n                    Ok(obj.clone_ref(py))")]},
-    {"id": "C06-realized-seq-dropped-tail", "prop": "C06", "edits": [
-        R(SEQRS, "            Some(Ok(v)) => Ok(new_py_cons(\n                py,\n                v,\n                Some(new_py_lazy_seq(py, slf.into_bound_py_any(py)?)?),",
-          "            Some(Ok(v)) => Ok(new_py_cons(\n                py,\n                v,\n                Some(new_py_lazy_seq(py, Sequence { it: slf.it.clone_ref(py) }.into_bound_py_any(py)?)?),")]},
     # ---- C14
     {"id": "C14-revert-F7-keyword-hash", "prop": "C14", "revert": ["SUBJECT:keywords from cached bytecode are interned"]},
     {"id": "C14-mtime-not-checked", "prop": "C14", "edits": [
@@ -110,6 +101,11 @@ MUTANTS = [
     {"id": "C14-partial-exec-before-validation", "prop": "C14", "edits": [
         R(IMPORTER, "    return marshal.loads(cache_data[12:])  # nosec 6302",
           "    try:\n        return marshal.loads(cache_data[12:])  # nosec 6302\n    except EOFError:\n        return []")]},
+    {"id": "C06-sequence-swallows-iterator-error", "prop": "C06", "edits": [
+        R(SEQRS, "            Some(Err(e)) => Err(e),\n            None => Ok(empty_seq(py).clone()),",
+          "            Some(Err(_)) => Ok(empty_seq(py).clone()),\n            None => Ok(empty_seq(py).clone()),")]},
+    {"id": "C06-computing-seen-by-other-thread-is-empty", "prop": "C06", "edits": [
+        R(SEQRS, "            match gen.call0(py) {", "            drop(mutex);\n            let result = gen.call0(py);\n            let mutex = self.lock_state(py);\n            match result {")]},
     # ---- C19
     {"id": "C19-slice-without-bounds-check", "prop": "C19", "edits": [
         R(BENCODE, "   (if (and end (> end (len bytes)))\n     (throw (python/ValueError \"out of input\"))",
@@ -290,8 +286,23 @@ def main(args):
             print("    " + r["tail"].replace("\n", "\n    "))
     shutil.rmtree(SCRATCH, ignore_errors=True)
     os.makedirs(os.path.join(B.VERIF, "selftest", "results"), exist_ok=True)
-    with open(os.path.join(B.VERIF, "selftest", "results", "sensitivity.json"), "w") as f:
-        json.dump({"at": time.strftime("%Y-%m-%dT%H:%M:%S"), "tree": B.tree_hash(), "results": res}, f, indent=1)
+    path = os.path.join(B.VERIF, "selftest", "results", "sensitivity.json")
+    merged = {}
+    try:
+        for r in json.load(open(path)).get("results", []):
+            merged[r["id"]] = r
+    except (OSError, ValueError):
+        pass
+    now = time.strftime("%Y-%m-%dT%H:%M:%S")
+    for r in res:
+        r["at"] = now
+        r["tree"] = B.tree_hash()
+        r.pop("tail", None) if r["caught"] else None
+        merged[r["id"]] = r
+    known = {m["id"] for m in MUTANTS}
+    with open(path, "w") as f:
+        json.dump({"note": "latest result per mutant (merged across runs)", "results": [merged[k] for k in sorted(merged) if k in known]},
+                  f, indent=1)
     missed = [r for r in res if not r["caught"]]
     print(f"[sensitivity] {len(res) - len(missed)}/{len(res)} mutants caught")
     return 0 if not missed else 1
